@@ -17,7 +17,9 @@ def _elem(shape, i, kind):
     if shape == "s":
         return 200 + i
     if shape == "z":
-        return [0, None, "", (), 0.0][(i - 1) % 5]
+        return [0, None, "", 0.0, []][(i - 1) % 5] if kind not in ("set", "frozenset") else [0, None, ""][(i - 1) % 3]
+    if shape == "e":
+        return ()
     if shape == "p":
         return (f"pk{i}", 300 + i)
     if shape == "l":
